@@ -6,6 +6,9 @@ here = os.path.dirname(os.path.abspath(__file__))
 sys.path.insert(0, here)
 from manifest_table import CLAIMED, NOT_YET
 root = os.path.dirname(here)
+import glob
+for f in sorted(glob.glob(os.path.join(here, "manifest_entries", "C*.json"))):
+    CLAIMED[os.path.basename(f)[:-5]] = json.load(open(f))
 props = [json.loads(l) for l in open(os.path.join(root, "properties.jsonl"))]
 checks = []
 for p in props:
